@@ -5,9 +5,10 @@ class C13(TxCheck):
     ID = "C13"
     MODE = "c13"
     LEVEL = "proof"
+    MODEL_CODES = [16, 18, 19, 20, 902]
     N_QUICK = 50
     N_THOROUGH = 1500
-    KINDS = ["tx_details_differ_from_ledger", "unconfirmed_set_differs_from_ledger", "store_error"]
+    KINDS = ["tx_details_differ_from_ledger", "unconfirmed_set_differs_from_ledger", "range_iteration_differs_from_ledger", "store_error"]
     RULE = ("C01's generator; after EVERY event: TxDetails and UniqueTxDetails(unmined) for every transaction of the universe "
             "(known, removed, never seen), RangeTransactions over {0..-1, -1..0, 0..tip, tip..0, -1..-1, tip..tip, tip+1..-1, 1..tip-1, tip-1..1} "
             "(groups per block in both directions, unmined group position), UnminedTxHashes - compared with the model and with spec_details. "
